@@ -1,4 +1,217 @@
-//! native validation of the oracles of this family against the repository's vectors
+//! native validation of the oracles of this family (blowfish incl. eksblowfish, cast5, idea, rc2, xtea) against the
+//! repository's vectors and the specifications' own examples
 #![allow(unused)]
 use crate::T;
-pub fn run(repo: &str, t: &mut T) {}
+use refmodels::{blowfish as bf, cast5, idea, rc2, xtea};
+
+fn hex(s: &str) -> Vec<u8> {
+    let s: Vec<u8> = s.bytes().filter(|c| !c.is_ascii_whitespace()).collect();
+    (0..s.len() / 2).map(|i| u8::from_str_radix(std::str::from_utf8(&s[2 * i..2 * i + 2]).unwrap(), 16).unwrap()).collect()
+}
+fn arr<const N: usize>(b: &[u8]) -> [u8; N] {
+    let mut a = [0u8; N];
+    a[..b.len()].copy_from_slice(b);
+    a
+}
+
+// ---- bcrypt (Provos, Mazieres) on top of the oracle's eksblowfish steps: used only to check the oracle against
+// ---- published bcrypt hashes
+const B64: &[u8; 64] = b"./ABCDEFGHIJKLMNOPQRSTUVWXYZabcdefghijklmnopqrstuvwxyz0123456789";
+fn b64_decode(s: &str, nbytes: usize) -> Vec<u8> {
+    let mut bits: u32 = 0;
+    let mut nb = 0;
+    let mut out = vec![];
+    for c in s.bytes() {
+        let v = B64.iter().position(|&x| x == c).unwrap() as u32;
+        bits = (bits << 6) | v;
+        nb += 6;
+        if nb >= 8 {
+            nb -= 8;
+            out.push((bits >> nb) as u8);
+            bits &= (1 << nb) - 1;
+        }
+    }
+    out.truncate(nbytes);
+    out
+}
+fn bcrypt_raw(cost: u32, salt: &[u8; 16], key: &[u8]) -> Vec<u8> {
+    let mut p = bf::P_INIT;
+    let mut s = bf::S_INIT;
+    let zero = [0u8; 16];
+    bf::eks_expand_key(&mut p, &mut s, salt, 16, key, key.len());
+    for _ in 0..(1u64 << cost) {
+        bf::eks_expand_key(&mut p, &mut s, &zero, 16, key, key.len());
+        bf::eks_expand_key(&mut p, &mut s, &zero, 16, salt, 16);
+    }
+    let mut ct = *b"OrpheanBeholderScryDoubt";
+    let mut out = vec![];
+    for blk in ct.chunks(8) {
+        let mut lr = [u32::from_be_bytes(blk[0..4].try_into().unwrap()), u32::from_be_bytes(blk[4..8].try_into().unwrap())];
+        for _ in 0..64 {
+            lr = bf::encipher(&p, &s, lr);
+        }
+        out.extend_from_slice(&lr[0].to_be_bytes());
+        out.extend_from_slice(&lr[1].to_be_bytes());
+    }
+    out.truncate(23);
+    out
+}
+fn bcrypt_check(hash: &str, pw: &[u8]) -> bool {
+    // "$2a$05$" + 22 chars salt + 31 chars hash; $2a$: the password is used including its terminating NUL
+    let cost: u32 = hash[4..6].parse().unwrap();
+    let salt: [u8; 16] = arr(&b64_decode(&hash[7..29], 16));
+    let want = b64_decode(&hash[29..], 23);
+    let mut key = pw.to_vec();
+    key.push(0);
+    bcrypt_raw(cost, &salt, &key) == want
+}
+
+pub fn run(repo: &str, t: &mut T) {
+    // ---------------- Blowfish
+    for (file, le) in [("blowfish/tests/data/blowfish.blb", false), ("blowfish/tests/data/blowfish_le.blb", true)] {
+        t.kat(repo, file, if le { "blowfish-le" } else { "blowfish" },
+            &|k, p| { let (pp, s) = bf::new(k, k.len()); bf::encrypt_block(&pp, &s, &arr(p), le).to_vec() },
+            &|k, c| { let (pp, s) = bf::new(k, k.len()); bf::decrypt_block(&pp, &s, &arr(c), le).to_vec() });
+    }
+    {
+        // Schneier's published vectors (ECB, 8-byte keys)
+        let v = [("0000000000000000", "0000000000000000", "4EF997456198DD78"), ("FFFFFFFFFFFFFFFF", "FFFFFFFFFFFFFFFF", "51866FD5B85ECB8A"),
+                 ("0123456789ABCDEF", "1111111111111111", "61F9C3802281B096"), ("FEDCBA9876543210", "0123456789ABCDEF", "0ACEAB0FC6A0A28D")];
+        let mut ok = true;
+        for (k, p, c) in v {
+            let (k, p, c) = (hex(k), hex(p), hex(c));
+            let (pp, s) = bf::new(&k, k.len());
+            ok &= bf::encrypt_block(&pp, &s, &arr(&p), false).to_vec() == c && bf::decrypt_block(&pp, &s, &arr(&c), false).to_vec() == p;
+        }
+        t.check("blowfish schneier vectors", ok);
+        // cyclic readers agree: streaming (Cycle) == definition (cyc_word) for every length 1..=72 and 20 words
+        let buf: Vec<u8> = (0..72u8).map(|i| i.wrapping_mul(37).wrapping_add(11)).collect();
+        let mut ok = true;
+        for len in 1..=72usize {
+            let mut c = bf::Cycle::new();
+            for j in 0..40 {
+                ok &= c.word(&buf, len) == bf::cyc_word(&buf, len, 4 * j);
+            }
+        }
+        t.check("blowfish cyclic reader", ok);
+        // plain expansion == eks expansion with all-zero salt (oracle-internal consistency)
+        let key = hex("00112233445566778899aabbccddeeff0123");
+        let (mut p1, mut s1) = (bf::P_INIT, bf::S_INIT);
+        let (mut p2, mut s2) = (bf::P_INIT, bf::S_INIT);
+        bf::expand_key(&mut p1, &mut s1, &key, key.len());
+        bf::eks_expand_key(&mut p2, &mut s2, &[0u8; 16], 16, &key, key.len());
+        t.check("eksblowfish zero salt", p1 == p2 && s1 == s2);
+        // published bcrypt hashes (OpenBSD / John the Ripper test set)
+        t.check("eksblowfish bcrypt U*U", bcrypt_check("$2a$05$CCCCCCCCCCCCCCCCCCCCC.E5YPO9kmyuRGyh0XouQYb4YMJKvyOeW", b"U*U"));
+        t.check("eksblowfish bcrypt U*U*", bcrypt_check("$2a$05$CCCCCCCCCCCCCCCCCCCCC.VGOzA784oUp/Z0DY336zx7pLYAy0lwK", b"U*U*"));
+        t.check("eksblowfish bcrypt U*U*U", bcrypt_check("$2a$05$XXXXXXXXXXXXXXXXXXXXXOAcXxm9kjPGEMsLznoKqmqw7tc8WCx4a", b"U*U*U"));
+        t.check("eksblowfish bcrypt empty", bcrypt_check("$2a$05$CCCCCCCCCCCCCCCCCCCCC.7uG0VCzI2bS7j6ymqJi9CdcdxiRTWNy", b""));
+    }
+    // ---------------- CAST5
+    t.kat(repo, "cast5/tests/data/cast5.blb", "cast5",
+        &|k, p| cast5::encrypt(&arr(k), k.len(), &arr(p)).to_vec(), &|k, c| cast5::decrypt(&arr(k), k.len(), &arr(c)).to_vec());
+    {
+        // RFC 2144 appendix B.1
+        let pt = hex("0123456789ABCDEF");
+        let v = [("0123456712345678234567893456789A", "238B4FE5847E44B2"), ("01234567123456782345", "EB6A711A2C02271B"), ("0123456712", "7AC816D16E9B302E")];
+        let mut ok = true;
+        for (k, c) in v {
+            let (k, c) = (hex(k), hex(c));
+            ok &= cast5::encrypt(&arr(&k), k.len(), &arr(&pt)).to_vec() == c && cast5::decrypt(&arr(&k), k.len(), &arr(&c)).to_vec() == pt;
+        }
+        t.check("cast5 rfc2144 B.1", ok);
+        // RFC 2144 appendix B.2 full maintenance test (1,000,000 iterations)
+        let mut a: [u8; 16] = arr(&hex("0123456712345678234567893456789A"));
+        let mut b = a;
+        for _ in 0..1_000_000 {
+            let (km, kr) = cast5::key_schedule(&b);
+            let l = cast5::crypt(&km, &kr, 16, &arr(&a[..8]), false);
+            let r = cast5::crypt(&km, &kr, 16, &arr(&a[8..]), false);
+            a[..8].copy_from_slice(&l);
+            a[8..].copy_from_slice(&r);
+            let (km, kr) = cast5::key_schedule(&a);
+            let l = cast5::crypt(&km, &kr, 16, &arr(&b[..8]), false);
+            let r = cast5::crypt(&km, &kr, 16, &arr(&b[8..]), false);
+            b[..8].copy_from_slice(&l);
+            b[8..].copy_from_slice(&r);
+        }
+        t.check("cast5 rfc2144 B.2 maintenance", a.to_vec() == hex("EEA9D0A249FD3BA6B3436FB89D6DCA92") && b.to_vec() == hex("B2C95EB00C31AD7180AC05B8E83D696E"));
+    }
+    // ---------------- IDEA
+    t.kat(repo, "idea/tests/data/idea.blb", "idea", &|k, p| idea::encrypt(&arr(k), &arr(p)).to_vec(), &|k, c| idea::decrypt(&arr(k), &arr(c)).to_vec());
+    {
+        let key: [u8; 16] = arr(&hex("00010002000300040005000600070008"));
+        t.check("idea classic vector", idea::encrypt(&key, &arr(&hex("0000000100020003"))).to_vec() == hex("11FBED2B01986DE5"));
+        // sub-key table of the classic example (Schneier, Applied Cryptography; also idea/src/tests.rs)
+        let ek: [u16; 52] = [
+            0x0001, 0x0002, 0x0003, 0x0004, 0x0005, 0x0006, 0x0007, 0x0008, 0x0400, 0x0600, 0x0800, 0x0a00, 0x0c00, 0x0e00, 0x1000, 0x0200,
+            0x0010, 0x0014, 0x0018, 0x001c, 0x0020, 0x0004, 0x0008, 0x000c, 0x2800, 0x3000, 0x3800, 0x4000, 0x0800, 0x1000, 0x1800, 0x2000,
+            0x0070, 0x0080, 0x0010, 0x0020, 0x0030, 0x0040, 0x0050, 0x0060, 0x0000, 0x2000, 0x4000, 0x6000, 0x8000, 0xa000, 0xc000, 0xe001,
+            0x0080, 0x00c0, 0x0100, 0x0140,
+        ];
+        let dk: [u16; 52] = [
+            0xfe01, 0xff40, 0xff00, 0x659a, 0xc000, 0xe001, 0xfffd, 0x8000, 0xa000, 0xcccc, 0x0000, 0x2000, 0xa556, 0xffb0, 0xffc0, 0x52ab,
+            0x0010, 0x0020, 0x554b, 0xff90, 0xe000, 0xfe01, 0x0800, 0x1000, 0x332d, 0xc800, 0xd000, 0xfffd, 0x0008, 0x000c, 0x4aab, 0xffe0,
+            0xffe4, 0xc001, 0x0010, 0x0014, 0xaa96, 0xf000, 0xf200, 0xff81, 0x0800, 0x0a00, 0x4925, 0xfc00, 0xfff8, 0x552b, 0x0005, 0x0006,
+            0x0001, 0xfffe, 0xfffd, 0xc001,
+        ];
+        t.check("idea sub-key example", idea::expand_key(&key) == ek && idea::invert(&ek) == dk);
+        // group laws of the leaf operations, exhaustively on one argument
+        let mut ok = true;
+        for a in 0..=65535u16 {
+            ok &= idea::mul(a, idea::mul_inv(a)) == 1 && idea::add(a, idea::add_inv(a)) == 0 && idea::mul(a, 1) == a;
+        }
+        t.check("idea inverses", ok);
+    }
+    // ---------------- RC2 (the repository keeps its vectors as tests/data/<n>.{key,input,output}.bin, see rc2/tests/mod.rs)
+    {
+        let rd = |n: u32, what: &str| std::fs::read(format!("{repo}/rc2/tests/data/{n}.{what}.bin")).unwrap();
+        for (n, eff) in [(1u32, 0usize), (2, 0), (3, 0), (7, 0), (4, 64), (5, 64), (6, 64), (8, 129)] {
+            let (k, i, o) = (rd(n, "key"), rd(n, "input"), rd(n, "output"));
+            let t1 = if eff == 0 { 8 * k.len() } else { eff };
+            let ok = rc2::encrypt(&arr(&k), k.len(), t1, &arr(&i)).to_vec() == o && rc2::decrypt(&arr(&k), k.len(), t1, &arr(&o)).to_vec() == i;
+            t.check(&format!("rc2 tests/data/{n}.*.bin (t1={t1})"), ok);
+        }
+        // RFC 2268 section 5 test vectors: (key, effective bits, plaintext, ciphertext)
+        let v = [
+            ("0000000000000000", 63, "0000000000000000", "ebb773f993278eff"),
+            ("ffffffffffffffff", 64, "ffffffffffffffff", "278b27e42e2f0d49"),
+            ("3000000000000000", 64, "1000000000000001", "30649edf9be7d2c2"),
+            ("88", 64, "0000000000000000", "61a8a244adacccf0"),
+            ("88bca90e90875a", 64, "0000000000000000", "6ccf4308974c267f"),
+            ("88bca90e90875a7f0f79c384627bafb2", 64, "0000000000000000", "1a807d272bbe5db1"),
+            ("88bca90e90875a7f0f79c384627bafb2", 128, "0000000000000000", "2269552ab0f85ca6"),
+            ("88bca90e90875a7f0f79c384627bafb216f80a6f85920584c42fceb0be255daf1e", 129, "0000000000000000", "5b78d3a43dfff1f1"),
+        ];
+        let mut ok = true;
+        for (k, t1, p, c) in v {
+            let (k, p, c) = (hex(k), hex(p), hex(c));
+            ok &= rc2::encrypt(&arr(&k), k.len(), t1, &arr(&p)).to_vec() == c && rc2::decrypt(&arr(&k), k.len(), t1, &arr(&c)).to_vec() == p;
+        }
+        t.check("rc2 rfc2268 vectors", ok);
+    }
+    // ---------------- XTEA
+    {
+        // the repository's vector (xtea/tests/mod.rs; little-endian words)
+        let key: [u8; 16] = *b"0123456789012345";
+        let ct = [0xea, 0x0c, 0x3d, 0x7c, 0x1c, 0x22, 0x55, 0x7f];
+        t.check("xtea repo vector (LE)", xtea::encrypt(&key, b"ABCDEFGH") == ct && xtea::decrypt(&key, &ct) == *b"ABCDEFGH");
+        // widely published word-level vectors (given big-endian in the literature; checked on the word routine)
+        let w = |s: &str| -> Vec<u32> { hex(s).chunks(4).map(|c| u32::from_be_bytes(c.try_into().unwrap())).collect() };
+        let v = [
+            ("000102030405060708090a0b0c0d0e0f", "4142434445464748", "497df3d072612cb5"),
+            ("000102030405060708090a0b0c0d0e0f", "4141414141414141", "e78f2d13744341d8"),
+            ("000102030405060708090a0b0c0d0e0f", "5a5b6e278948d77f", "4141414141414141"),
+            ("00000000000000000000000000000000", "4142434445464748", "a0390589f8b8efa5"),
+            ("00000000000000000000000000000000", "4141414141414141", "ed23375a821a8c2d"),
+            ("00000000000000000000000000000000", "70e1225d6e4e7655", "4141414141414141"),
+        ];
+        let mut ok = true;
+        for (k, p, c) in v {
+            let (k, p, c) = (w(k), w(p), w(c));
+            let k = [k[0], k[1], k[2], k[3]];
+            ok &= xtea::encipher(&k, [p[0], p[1]]) == [c[0], c[1]] && xtea::decipher(&k, [c[0], c[1]]) == [p[0], p[1]];
+        }
+        t.check("xtea published vectors (words)", ok);
+    }
+}
